@@ -20,7 +20,7 @@ from ..runner import CaseResult, digest
 ID = "C14"
 DOM = """(define (domain v14)
 (:requirements :typing :numeric-fluents)
-(:types t1 - object)
+(:types t1 - object t2 - t1)
 (:predicates (p ?a - t1) (q ?a - t1 ?b - t1) (r))
 (:functions (f) (g ?a - t1) (h ?a - t1 ?b - t1))
 (:action add-p :parameters (?x - t1) :precondition (and) :effect (and (p ?x)))
@@ -34,7 +34,7 @@ DOM = """(define (domain v14)
 (:action set-h :parameters (?x - t1 ?y - t1) :precondition (and) :effect (and (decrease (h ?x ?y) 2)))
 (:action neg-f :parameters () :precondition (and) :effect (and (assign (f) (* (f) -1)))))
 """
-OBJS = "a b - t1"
+OBJS = "a - t1 b - t2"   # b's own type is below the declared parameter types: builders annotate its facts differently
 ATOMS_Q = [("p", "a"), ("q", "a", "b"), ("q", "a", "a"), ("r",)]
 ATOMS_T = ATOMS_Q + [("p", "b")]
 FL_Q = [("f",), ("h", "a", "a")]
@@ -351,6 +351,17 @@ def constructed_route(r):
     what it was built from"""
     from pddl_plus_parser.models import PDDLFunction, GroundedPredicate, State
     t1 = D().types["t1"]
+    # the copy of a literal is the same literal (sign included)
+    lifted = D().predicates["p"]
+    for positive in (True, False):
+        g = GroundedPredicate("p", lifted.signature, {"?a": "a"}, is_positive=positive)
+        c = guard(lambda: g.copy())
+        r.count("transitions")
+        if isinstance(c, Raised) or c.is_positive is not positive or c.untyped_representation != g.untyped_representation:
+            r.fail("copy-independence", f"GroundedPredicate.copy() of {g.untyped_representation} gives "
+                   f"{c if isinstance(c, Raised) else c.untyped_representation}", g.untyped_representation, str(c)[:100],
+                   tags=["literal-copy"])
+            return
 
     def build(fluents, atoms):
         fl = {}
